@@ -58,7 +58,9 @@ func checkErrorsExamined(c *Ctx, r *Report, rule, doc string, min int, fns []*ss
 		ok := true
 		why := ""
 		pos := fn.Pos()
-		complete := enumPaths(fn, 1, 200000, func(p CPath) {
+		// (each segment up to twice: a failure inside a loop body is followed by the loop's next
+		// turn or its exit, both of which pass the loop head again)
+		complete := enumPaths(fn, 2, 2000000, func(p CPath) {
 			ret, isRet := p.Last().(*ssa.Return)
 			if !isRet || ret.Parent() != fn || c.errOutcome(fn, p) == 1 {
 				return
